@@ -1,21 +1,9 @@
 import PkgModel.License
 /-!
-# C19 — facts about the interpreter's Unicode slices (`str.isspace`, `str.lower`), kernel-evaluated
+# C19 — facts about the interpreter's white-space table (`str.isspace`), kernel-evaluated
 -/
 namespace C19
 open Py Lic
-
-/-! ### the interpreter's Unicode slices -/
-
-/-- every non-ASCII entry of the `str.lower` table: the source is ≥ 128 and is not white space; the image
-contains no white space, no parenthesis, and — except for U+212A KELVIN SIGN, whose image is `k` — at
-least one non-ASCII code point -/
-def lowerEntryOk (p : Nat × List Nat) : Bool :=
-  128 ≤ p.1 && !isSpace p.1 && !p.2.isEmpty &&
-  p.2.all (fun c => !isSpace c && c != 40 && c != 41) &&
-  (p.2.any (fun c => 128 ≤ c) || (p.1 == 0x212A && p.2 == [107]))
-
-theorem lower_table_ok : Gen.SpdxUnicode.lower.all lowerEntryOk = true := by decide +kernel
 
 /-- the white-space table contains the ASCII separators, no parenthesis, no ASCII letter/digit/`.`/`-`/`+` -/
 theorem spaces_ok :
